@@ -226,8 +226,10 @@ func (s *session) SignalUnSubscribe(pkt *mqttp.UnSubscribe) (mqttp.IFace, error)
 
 	_ = pkt.ForEachTopic(func(t *mqttp.Topic) error {
 		reason := mqttp.CodeSuccess
-		if e := s.permissions.ACL(s.id, s.username, t.Full(), vlauth.AccessRead); errors.Is(e, vlauth.StatusAllow) {
-			if e = s.subscriber.UnSubscribe(t.Full()); e != nil {
+		// the subscription is held (and was authorised) under its filter: a shared subscription's
+		// "$share/<group>/" prefix is not part of it, see SignalSubscribe
+		if e := s.permissions.ACL(s.id, s.username, t.Filter(), vlauth.AccessRead); errors.Is(e, vlauth.StatusAllow) {
+			if e = s.subscriber.UnSubscribe(t.Filter()); e != nil {
 				s.log.Error("unsubscribe from topic", zap.String("clientId", s.id), zap.Error(e))
 				reason = mqttp.CodeNoSubscriptionExisted
 			}
